@@ -32,6 +32,8 @@ static void gen_common(Plan* p, Rng* r, int tier, long idx, int which) {
     plan_set(p, "hint_out", rng_coin(r, 1, 2) ? (1 << 20) : rng_range(r, 1, 200000));
     plan_set(p, "hint_reinit", (int64_t)rng_below(r, 2));
     plan_set(p, "prelude", (idx % 4) == 2 ? 1 + (int64_t)(rng_u64(r) >> 40) : 0);
+    /* one run in six: entropy-only noise (random or mixed content over a 16-100 symbol alphabet), long enough for literal sections beyond 64 KiB */
+    if ((idx % 6) == 5) { plan_set(p, "in_alpha", rng_range(r, 16, 100)); plan_set(p, "in_kind", rng_coin(r, 1, 2) ? GEN_RANDOM : GEN_MIXED); if (plan_get(p, "in_size", 0) < (200 << 10) && !mt) plan_set(p, "in_size", rng_range(r, 200 << 10, 700 << 10)); if (rng_coin(r, 1, 2)) plan_set(p, "c.windowLog", rng_range(r, 17, 20)); }
     sim_sched_plan_defaults(p, r, 0);
     plan_set(p, "sched_step_cap", tier ? 80000000 : 6000000);   /* thorough inputs are 4-8x larger: the budget of scheduling points follows */
 }
